@@ -37,7 +37,8 @@ def _cases(rng, quick, gr):
     for slot in ["positional", "keyword", "list-element", "mode", "scalar-decl", "loop-list"]:
         yield {"tag": "undefined-array:" + slot, "text": HDR + DECLS + SLOTS[slot].replace("{F}", "U[0]") + "\n"}
     # metadata options
-    for meta in ["target dev (shots=u)", "type tdm (temporal_modes=u + 1)", "target dev (a=1, b=[u])"]:
+    for meta in ["target dev (shots=u)", "type tdm (temporal_modes=u + 1)", "target dev (a=1, b=[u])", "target dev (u)", "target dev (2 * u, shots=10)", "type demo (u)",
+                 "type tdm (u + 1, temporal_modes=2)"]:
         yield {"tag": "undefined:metadata", "text": "name f\nversion 1.0\n%s\nVac | 0\n" % meta}
     # 2. reserved names
     for nm in ["q0", "q12", "name", "version", "target", "type"]:
